@@ -218,6 +218,69 @@ Proof.
     symmetry. apply JI'.
 Qed.
 
+(* ---- client-made registers ------------------------------------------------------------------------------------------------ *)
+(* an empty register more: the joint group is unchanged, the ideal register is not touched *)
+Lemma tcore_newreg s st n mq : tcore s st -> tcore (fst (step s (ONewReg n mq))) st.
+Proof.
+  intros T. destruct (perm_newreg_alt s n mq) as [(v & P2) | (_ & ES)]; [|rewrite ES; exact T].
+  destruct P2 as [_ P2]. pose proof (factors_perm _ _ P2) as HF. simpl in HF. fold (factors s) in HF.
+  change (fac (mkReg (nextReg (nth_node s n)) mq 0 [] [])) with (mkF [] 0 []) in HF.
+  destruct (step_add_empty (factors s) _ (tc_ok s st T) HF) as (OK & I & J).
+  constructor; auto; [apply T| |].
+  - intro y. rewrite I. apply T.
+  - intro P. unfold joint. rewrite J. apply T.
+Qed.
+
+(* the network gains the one-qubit factor |0> on a fresh identity (in whatever form): the ideal machine's creation matches it *)
+Lemma tcore_create_core s s' st q : tcore s st -> ~ In q (all_ids (factors s)) ->
+  fsok (factors s') ->
+  (forall y, In y (all_ids (factors s')) <-> In y (all_ids (mkF [q] 1 (add_qubit 0 []) :: factors s))) ->
+  (forall P, jgroup (factors s') P <-> jgroup (mkF [q] 1 (add_qubit 0 []) :: factors s) P) ->
+  tcore s' (fst (istep st (ICreate q))).
+Proof.
+  intros T NQ OK' I' J'.
+  assert (NQI : ~ In q (fst st)) by (intro H; apply NQ; apply (tc_ids s st T); auto).
+  unfold istep. rewrite (mem_nat_false q (fst st) NQI). cbn [fst].
+  set (f0 := mkF [q] 1 (add_qubit 0 [])) in *.
+  destruct (step_create_single (fst st) (snd st) q (tc_iok s st T) NQI) as (OKI' & JI').
+  destruct (ifac_frame s st T) as (NDI & FI & _).
+  assert (OK1 : fsok [f0; ifac st]).
+  { split; simpl; [rewrite app_nil_r; constructor; auto|]. constructor; [split; simpl; auto; apply full_zero1|].
+    apply (tc_iok s st T). }
+  constructor; auto.
+  - intro y. cbn [fst]. rewrite I'. simpl. rewrite in_app_iff, <- (tc_ids s st T). simpl. tauto.
+  - intro P. unfold joint, ideal. rewrite J'.
+    rewrite (jgroup_cons_congr f0 (factors s) [ifac st] P (tc_eq s st T)).
+    rewrite (jgroup_perm _ _ P (perm_swap (ifac st) f0 []) (proj1 OK1)).
+    symmetry. apply JI'.
+Qed.
+
+(* remote_new_qubit_inreg: |0> appended INSIDE an existing register equals that register (x) |0> (tensor_group via jgroup_merge) *)
+Lemma tcore_new_inreg s st n ow k v : reachable s -> tcore s st ->
+  snd (step s (ONewInReg n ow k)) = Ok v ->
+  tcore (fst (step s (ONewInReg n ow k))) (fst (istep st (ICreate (next_hid s)))).
+Proof.
+  intros R T EO. pose proof (reachable_ginv s R) as G.
+  destruct (perm_new_inreg_alt s n ow k (proj2 G)) as [(v' & r & rest & _ & Hr & Ek & P1 & P2) | (NO & _)];
+    [|exfalso; apply (NO v); exact EO].
+  set (q := next_hid s) in *. set (s' := fst (step s (ONewInReg n ow k))) in *.
+  pose proof (fresh_not_recorded s G) as NQ. fold q in NQ.
+  set (f0 := mkF [q] 1 (add_qubit 0 [])).
+  pose proof (factors_perm s _ P1) as HF. simpl in HF.
+  pose proof (factors_perm s' _ P2) as HF'. simpl in HF'.
+  change (fac (mkReg (r_num r) (r_max r) (S (r_n r)) (add_qubit (r_n r) (r_tab r)) (r_ids r ++ [q])))
+    with (mkF (r_ids r ++ [q]) (S (r_n r)) (tensor (r_n r) (r_tab r) 1 (add_qubit 0 []))) in HF'.
+  replace (S (r_n r)) with (r_n r + 1) in HF' by lia.
+  destruct (tc_ok s st T) as [NDs FAs].
+  assert (OK0 : fsok (f0 :: factors s)).
+  { split; simpl; [constructor; auto|]. constructor; auto. split; simpl; auto. apply full_zero1. }
+  assert (PA : Permutation (f0 :: factors s) (mkF (r_ids r) (r_n r) (r_tab r) :: f0 :: map fac rest)).
+  { eapply Permutation_trans; [apply perm_skip; exact HF|]. apply perm_swap. }
+  destruct (step_merge (f0 :: factors s) (factors s') (r_ids r) (r_n r) (r_tab r) [q] 1 (add_qubit 0 []) (map fac rest) OK0 PA HF')
+    as (OK' & I' & J').
+  apply (tcore_create_core s s' st q T NQ OK' I' J').
+Qed.
+
 (* ---- measurement on a live handle ------------------------------------------------------------------------------------------------ *)
 Lemma tcore_meas s st h vi q ip c : reachable s -> tcore s st -> find_handle s h = Some (vi, q) ->
   tcore (fst (step s (OMeas h ip c))) (fst (istep st (IMeas (v_qid q) ip c))) /\
@@ -275,7 +338,7 @@ Theorem step_tcore s st o : reachable s -> tcore s st ->
   tcore (fst (step s o)) (fst (istep st (tr s o))) /\ out_meas o (snd (step s o)) = snd (istep st (tr s o)).
 Proof.
   intros R T. pose proof (reachable_ginv s R) as G.
-  destruct o as [n | h g | h1 h2 g | h t | h ip c].
+  destruct o as [n | h g | h1 h2 g | h t | h ip c | n mq | n ow k].
   - (* create *)
     unfold tr. destruct (perm_new_alt s n (proj2 G)) as [(v & r & EO & En & Et & Ei & P2) | (NO & ES)].
     + rewrite EO. split; [eapply tcore_new; eauto|].
@@ -305,6 +368,18 @@ Proof.
     unfold tr. destruct (find_handle s h) as [[vi q]|] eqn:EF.
     + apply (tcore_meas s st h vi q ip c R T EF).
     + rewrite (meas_stale_noop s h ip c EF). split; auto.
+  - (* create a register *)
+    split; auto. apply tcore_newreg; auto.
+  - (* create a qubit inside a register *)
+    unfold tr. destruct (snd (step s (ONewInReg n ow k))) as [v| | |kk] eqn:EO.
+    + split; [eapply tcore_new_inreg; eauto|].
+      simpl out_meas. unfold istep. destruct (mem_nat _ _); reflexivity.
+    + destruct (perm_new_inreg_alt s n ow k (proj2 G)) as [(v' & r & rest & EO' & _) | (_ & ES)]; [congruence|].
+      rewrite ES. split; auto.
+    + destruct (perm_new_inreg_alt s n ow k (proj2 G)) as [(v' & r & rest & EO' & _) | (_ & ES)]; [congruence|].
+      rewrite ES. split; auto.
+    + destruct (perm_new_inreg_alt s n ow k (proj2 G)) as [(v' & r & rest & EO' & _) | (_ & ES)]; [congruence|].
+      rewrite ES. split; auto.
 Qed.
 
 (* ---- whole programs ------------------------------------------------------------------------------------------------------------------ *)
